@@ -234,7 +234,7 @@ def icode_run(txt):
     return '\n'.join(out) + '\n'
 
 
-def mk_complement(name, rotation=None, keep=False, hetero=None, icodes=False, legacy=False):
+def mk_complement(name, rotation=None, keep=False, hetero=None, icodes=False, legacy=False, dimer=None):
     def body(ctx):
         """complete residues with regular geometry get the full complement;
         every added hydrogen has exactly one (heavy) neighbour at the tabulated
@@ -263,9 +263,32 @@ def mk_complement(name, rotation=None, keep=False, hetero=None, icodes=False, le
         elif keep:
             from .c04 import with_hydrogens_text
             mol = M.run(with_hydrogens_text(name), args=['--keep-protons'], transform=tr)
+        elif dimer:
+            # a hetero-dimer: a second, different chain numbered like the first one (other residue types at the same numbers), one of
+            # its atoms in two alternate locations -- every conformation (the second one is topped up) is examined
+            t1 = '\n'.join(l for l in M.text(name).split('\n') if l and not l.startswith('TER')) + '\nTER   \n'
+            first_num = min(int(l[22:26]) for l in t1.split('\n') if l.startswith('ATOM'))
+            t2 = M.text(dimer)
+            cb = [l for l in t2.split('\n') if l.startswith('ATOM') and l[12:16].strip() == 'CB'][1]
+            t2 = M.renumber_keep_altloc(M.altloc(t2, int(cb[22:26]), 'CB'), first_num)
+            t2 = '\n'.join((l[:21] + 'B' + l[22:]) if l[:6] in ('ATOM  ', 'HETATM') else l for l in t2.split('\n'))
+            mol = M.run(t1 + t2, transform=tr)
+            ctx.claim('two-conformations', len(mol.conformation_names) == 2, detail=repr(mol.conformation_names))
+            # every residue that is complete in the input is there, complete, in every conformation (else nothing below would
+            # be claimed about it)
+            want = sorted({(l[21], int(l[22:26]), l[12:16].strip()) for l in (t1 + t2).split('\n') if l.startswith('ATOM')})
+            for cname in mol.conformation_names:
+                have = sorted({(a.chain_id, a.res_num, a.name) for a in mol.conformations[cname].atoms if a.element != 'H'})
+                ctx.claim('every-heavy-atom-of-the-input-in-every-conformation', have == want, detail='%s: missing %r' % (cname, [x for x in want if x not in have][:5]))
         else:
             mol = M.run(hetero_residue(M.text(name), *hetero) if hetero else (icode_run(M.text(name)) if icodes else M.text(name)), transform=tr)
-        conf = mol.conformations['1A']
+        for cname in (list(mol.conformation_names) if dimer else ['1A']):
+            _complement_claims(ctx, mol.conformations[cname], cname if dimer else '')
+    return body
+
+
+def _complement_claims(ctx, conf, tag):
+    if True:
         first_res = min(a.res_num for a in conf.atoms)
         for g in conf.groups:
             exp = EXPECTED_H.get(g.type)
@@ -305,7 +328,6 @@ def mk_complement(name, rotation=None, keep=False, hetero=None, icodes=False, le
                         ctx.claim('hydrogens-apart', ge(d2, 0.25), detail='%s on %s %s' % (hs[i].name, a.res_name, a.name))
                 if a.res_name == 'PRO' and a.name == 'N':
                     ctx.claim('none-on-proline-N', not hs)
-    return body
 
 
 def obligations(tier):
@@ -354,6 +376,11 @@ def obligations(tier):
         obs.append(Obligation('O3-complement-and-placement[%s,keep-protons]' % name, mk_complement(name, keep=True), code=pipe + ['propka/bonds.py:BondMaker.check_distance'],
                               bounds='%s with the hydrogens supplied (the program\'s own, incl. H...O contacts below 2 A), --keep-protons, symbolic grid translation' % name,
                               claim_doc='as O3: in particular every hydrogen is bonded to exactly one (heavy) atom and every group has its full complement', max_paths=5000, wall_s=170))
+    for name, second in ([('tri_HIS', 'tri_ARG')] if tier == 'quick' else [('tri_HIS', 'tri_ARG'), ('tri_ASN', 'tri_TRP'), ('tri_ARG', 'pep8')]):
+        obs.append(Obligation('O3-complement-and-placement[%s + %s numbered alike,alternate locations]' % (name, second), mk_complement(name, dimer=second),
+                              code=pipe + ['propka/conformation_container.py:ConformationContainer.top_up_from_atoms', 'propka/molecular_container.py:MolecularContainer.top_up_conformations'],
+                              bounds='%s (chain A) followed by %s as chain B with the same residue numbers (other residue types at the same numbers), one CB of chain B in two alternate locations; symbolic grid translation' % (name, second),
+                              claim_doc='as O3, in both conformations (the second one is topped up from the first)', max_paths=5000, wall_s=170 if tier == 'quick' else 900))
     for name in (['tri_ARG', 'tri_LYS'] if tier == 'quick' else ['tri_ARG', 'tri_LYS', 'tri_ASN', 'tri_HIS', 'tri_TRP', 'pair_GLU_ARG_TYR']):
         obs.append(Obligation('O3-complement-and-placement[%s,keep-protons,one hydrogen missing]' % name, mk_complement(name, keep='one-missing'), code=pipe + ['propka/protonate.py:Protonate.set_steric_number_and_lone_pairs'],
                               bounds='%s with the program\'s own hydrogens supplied except one (each hydrogen in turn), --keep-protons, symbolic grid translation' % name,
